@@ -137,6 +137,48 @@ def main(argv):
             tail = open(log.name).read()[-1500:]
             harness_errors.append('shard wrote no summary: %s\n%s' % (out, tail))
 
+    # ---- coverage-guided fuzzing (thorough tier, properties that opt in) ----
+    fuzz_note = None
+    fuzz_runs = getattr(prop, 'FUZZ_RUNS', 0) if tier == 'thorough' else 0
+    if fuzz_runs and os.environ.get('VV_FUZZ_RUNS'):
+        fuzz_runs = int(os.environ['VV_FUZZ_RUNS'])
+    if fuzz_runs and not harness_errors:
+        try:
+            sys.path.append(os.path.join(VERIF, '.deps'))
+            import atheris  # noqa: F401
+            have = True
+        except Exception as e:
+            have = False
+            fuzz_note = 'atheris unavailable (%s): fuzz stage skipped' % e
+        if have:
+            fprocs = []
+            for i in range(nshards):
+                out = os.path.join(sdir, 'fuzz%d.json' % i)
+                log = open(os.path.join(sdir, 'fuzz%d.log' % i), 'w')
+                p = subprocess.Popen(
+                    [sys.executable, '-m', 'vv.fuzz', pid,
+                     str(seed * 1000 + i + 1), str(i), str(fuzz_runs), out],
+                    stdout=log, stderr=subprocess.STDOUT, env=env, cwd=VERIF)
+                fprocs.append((p, out, log))
+            n_exec = 0
+            for p, out, log in fprocs:
+                try:
+                    p.wait(timeout=max(1, deadline - time.time()))
+                except subprocess.TimeoutExpired:
+                    p.kill()
+                    p.wait()
+                log.close()
+                if os.path.exists(out):
+                    with open(out) as f:
+                        fs = json.load(f)
+                    n_exec += fs['evaluations']
+                    summaries.append(fs)
+                if p.returncode == 2 and not os.path.exists(out):
+                    harness_errors.append('fuzz worker failed: ' +
+                                          open(log.name).read()[-800:])
+            fuzz_note = ('atheris/libFuzzer: %d workers x -runs=%d, %d valid '
+                         'executions through fuzz_one_input'
+                         % (nshards, fuzz_runs, n_exec))
     evals = sum(s['evaluations'] for s in summaries)
     rejected = sum(s['rejected'] for s in summaries)
     hashes = set()
@@ -186,6 +228,7 @@ def main(argv):
             'violation_buckets': dict(buckets),
             'shards': nshards,
             'shard_seeds': [s['shard_seed'] for s in summaries],
+            'fuzz_stage': fuzz_note,
         },
         'assumptions': list(getattr(prop, 'ASSUMPTIONS', [])),
         'wall_s': round(wall, 2),
